@@ -1361,6 +1361,8 @@ type scenario struct {
 	nclose int // cl: number of concurrent callers of Close() (default 1)
 	rchunk int // rk: KiB the clients of the parked exchanges read at a time (0 = as fast as they can)
 	rpause int // rp: µs they pause between two reads
+	tmo    int   // to: the proxy's SetTimeout in ms (0: the harness default of 60 s)
+	park   int   // pk: ms the parked exchanges stay parked after shutdown became observable, before the releases
 	upload []int // u: per connection, the parked exchange's request announces a body and sends only part of it (1 Content-Length, 2 Expect: 100-continue, 3 chunked; +3: the client leaves after the response instead of sending the rest)
 	fault  []int // f: per connection, origin fault on one of its exchanges (0 none, 1 refused/reset, 2 truncated head, 3 timeout)
 	raw    bool // rw=1: the proxy serves the accepted *net.TCPConn itself; only modifiers and clients are observed
@@ -1507,6 +1509,16 @@ func parseScn(op string) (*scenario, bool) {
 			case "rw":
 				sc.raw = kv[1] == "1"
 			}
+		case "to", "pk":
+			n, err := strconv.Atoi(kv[1])
+			if err != nil || n < 0 || n > 6000 {
+				return nil, false
+			}
+			if kv[0] == "to" {
+				sc.tmo = n
+			} else {
+				sc.park = n
+			}
 		case "cl":
 			n, err := strconv.Atoi(kv[1])
 			if err != nil || n < 1 || n > 4 {
@@ -1537,6 +1549,18 @@ func parseScn(op string) (*scenario, bool) {
 	}
 	if sc.raw && (sc.mitm || sc.stall > 0) {
 		return nil, false
+	}
+	if sc.tmo > 0 {
+		// a short proxy timeout: only exchanges parked in a modifier or the round tripper (a connection found
+		// reading would simply hit its idle deadline before shutdown begins)
+		if sc.tmo < 200 || sc.mitm || sc.stall > 0 || sc.rchunk > 0 || sc.raw {
+			return nil, false
+		}
+		for _, p := range sc.pts {
+			if p != "reqmod" && p != "rt" && p != "resmod" {
+				return nil, false
+			}
+		}
 	}
 	n := len(sc.pts)
 	if n < 1 || n > 4 {
@@ -1678,6 +1702,10 @@ func runScenario(sc *scenario) (trace []string, v verdict, counted map[int]bool)
 		v.set("c07:harness", "listen: %v", err)
 		return nil, v, nil
 	}
+	if sc.tmo > 0 {
+		w.p.SetTimeout(time.Duration(sc.tmo) * time.Millisecond) // no connection exists yet
+	}
+	sentAt := make([]time.Time, n) // when the parked request of connection k was sent
 	w.sbuf = sc.sbuf
 	w.raw = sc.raw
 	if sc.raw {
@@ -1878,6 +1906,7 @@ func runScenario(sc *scenario) (trace []string, v verdict, counted map[int]bool)
 			}
 		default:
 			var err error
+			sentAt[k] = time.Now()
 			if u := sc.upload[k]; u > 0 {
 				cl.upLeave = u > 3
 				err = cl.sendUpload((u-1)%3+1, sc.q[k])
@@ -1945,6 +1974,9 @@ func runScenario(sc *scenario) (trace []string, v verdict, counted map[int]bool)
 	if sc.delay > 0 {
 		time.Sleep(time.Duration(sc.delay) * time.Microsecond)
 	}
+	if sc.park > 0 {
+		time.Sleep(time.Duration(sc.park) * time.Millisecond) // Close() is pending, the exchanges stay parked
+	}
 
 	// 3. releases, in the given order
 	var stalled []int
@@ -2002,6 +2034,12 @@ func runScenario(sc *scenario) (trace []string, v verdict, counted map[int]bool)
 				v.set("c07:conn-not-closed", "connection %d (CONNECT parked in %s) was not closed within %v of its release during shutdown", k, sc.pts[k], stepDeadline)
 			}
 		default:
+			if sc.tmo > 0 && !sentAt[k].IsZero() && 2*time.Since(sentAt[k]) > time.Duration(sc.tmo)*time.Millisecond {
+				// the exchange has outlasted (or is about to outlast) the idle deadline the APPLICATION configured
+				// with SetTimeout: handleLoop armed it on the client connection before reading the request, so the
+				// response write will fail with a timeout — the environment's doing, like a client that went away
+				w.log.add("tmo:%d", k)
+			}
 			w.log.add("open:%d", k)
 			plans[k].release()
 			if sc.pts[k] == "rbody" {
@@ -2187,7 +2225,7 @@ func judge(trace []string) (v verdict, early bool) {
 			c.tls = true
 		case "hj":
 			c.hj++
-		case "cx":
+		case "cx", "tmo":
 			c.cx = true
 		case "tls":
 			c.tls = true
@@ -2361,6 +2399,9 @@ func (e *ex) do(op string) core.Result {
 		}
 		if sc.rchunk > 0 {
 			core.Count("slow-reader")
+		}
+		if sc.tmo > 0 {
+			core.Count(fmt.Sprintf("proxy-timeout:%dms:parked-%dx", sc.tmo, sc.park/sc.tmo))
 		}
 		for k, u := range sc.upload {
 			if u > 0 {
@@ -2854,6 +2895,32 @@ func uploadGrid(emit func(ops []string)) {
 	emit([]string{scnOp([]string{"rt"}, []int{0}, []int{1}, []int{0}, []int{0}, 64) + " u=1 rw=1"})
 }
 
+// timeoutScn: the proxy's CONFIGURATION during shutdown — SetTimeout small (300 ms .. 1 s), 1..3 exchanges parked
+// in a modifier or the round tripper, and they stay parked 2–3 × the timeout while Close() is pending. Close()
+// must keep waiting (no handler's progress depends on p.timeout while it is parked there); after the release the
+// exchange proceeds, and its response write meets the expired idle deadline (tmo: the application's choice).
+func timeoutScn(r *core.Rand, quick bool) string {
+	n := r.Range(1, 3)
+	pts := make([]string, n)
+	x := make([]int, n)
+	for i := range pts {
+		pts[i] = r.Pick("reqmod", "rt", "resmod")
+		if r.Chance(1, 3) {
+			x[i] = 1
+		}
+	}
+	ps := perms(n)
+	to := []int{300, 500, 1000}[r.Intn(3)]
+	if quick {
+		to = []int{300, 400}[r.Intn(2)]
+	}
+	op := scnOp(pts, x, make([]int, n), make([]int, n), ps[r.Intn(len(ps))], []int{64, 5000}[r.Intn(2)])
+	if r.Chance(1, 4) {
+		op += " cl=2"
+	}
+	return op + fmt.Sprintf(" to=%d pk=%d", to, to*r.Range(2, 3))
+}
+
 // slowScn: clients that never stop reading but drain slower than the proxy writes (rk KiB every rp µs), a
 // multi-MiB response, shutdown in the middle of the exchange. raw: the proxy is handed the accepted
 // *net.TCPConn itself (whatever it does to real TCP sockets — socket options at close, linger — happens),
@@ -3087,6 +3154,9 @@ func (P) Gen(r *core.Rand, tier string, emit func(ops []string)) {
 		for i := 0; i < 600; i++ {
 			emit([]string{uploadScn(r)})
 		}
+		for i := 0; i < 30; i++ {
+			emit([]string{timeoutScn(r, false)})
+		}
 		return
 	}
 	// quick: exhaustive for 1 and 2 connections (6 + 36·2 scenarios), then a seeded sample
@@ -3132,6 +3202,9 @@ func (P) Gen(r *core.Rand, tier string, emit func(ops []string)) {
 	uploadGrid(emit)
 	for i := 0; i < 30; i++ {
 		emit([]string{uploadScn(r)})
+	}
+	for i := 0; i < 2; i++ {
+		emit([]string{timeoutScn(r, true)})
 	}
 	// one slow-client scenario (≈ 7–9 s): clients stalled during the drain phase, bodies ≫ socket buffers
 	emit([]string{stallScn(r, r.Range(6500, 8500), r.Chance(1, 2), false)})
